@@ -50,12 +50,16 @@ Template(kd, f, g) ==
     \* submodules: diff.submodule=log prints "Submodule <path> <a>..<b>:" and its "  > subject" lines instead of
     \* a diff; the default (short) format is an ordinary diff whose hunk consists of two "Subproject commit" lines
     [] kd = "sublog"   -> << >>
+    [] kd = "subdel"   -> << L("delfile", 0, 0), L("index", 0, 0), L("mmm", f, 0), L("ppp", 0, 0), L("hh", 0, 0), L("subm", 0, 0) >>
+    [] kd = "subadd"   -> << L("newfile", 0, 0), L("index", 0, 0), L("mmm", 0, 0), L("ppp", f, 0), L("hh", 0, 0), L("subp", 0, 0) >>
     [] kd = "subshort" -> << L("index", 0, 0), L("mmm", f, 0), L("ppp", f, 0), L("hh", 0, 0), L("subm", 0, 0), L("subp", 0, 0) >>
 
+\* (a removed / an added submodule in the short format: one "Subproject commit" line alone)
+SubOne(kd) == kd \in {"subdel", "subadd"}
 HasHunks(kd)  == kd \in {"mod", "add", "del", "renmod", "modemod", "cc"}
 TwoPaths(kd)  == kd \in {"rename", "renmod", "copy", "renmode", "binx", "renbin"}
 AllKinds == {"mod", "add", "addempty", "del", "rename", "renmod", "copy", "modeonly", "modemod", "bin",
-             "binadd", "bare", "cc", "sublog", "subshort", "modebin", "renmode", "binx", "renbin"}
+             "binadd", "bare", "cc", "sublog", "subshort", "modebin", "renmode", "binx", "renbin", "subdel", "subadd"}
 
 BodyClasses == {"minus", "plus", "zero"}
 
